@@ -227,7 +227,9 @@ def rule_ts_zipfile(facts, rep):
             touchers.add(f.path)
         for (f, bi, si, s) in mut_borrows_of_field(facts, fld, r"^read::ZipFile$"):
             touchers.add(f.path)
-    expected = {"get_reader", "get_raw_reader", "drop"}
+    from engine.query import lazy_ctor
+    lz = lazy_ctor(facts)
+    expected = {lz.name, "get_raw_reader", "drop"}
     names = {p.split("::")[-1] for p in touchers}
     extra = sorted(names - expected)
     good = not extra
@@ -237,8 +239,8 @@ def rule_ts_zipfile(facts, rep):
     # (3) preservation in the two lazy builders (path enumeration): the crypto reader is taken only on paths that saw
     #     reader == NoReader, and every such path that returns has re-assigned self.reader
     from engine.paths import paths as _paths, decided as _decided, called as _called
-    for nm in ("get_reader", "get_raw_reader"):
-        f = facts.one(r"^read::ZipFile::<'a>::%s$" % nm)
+    for nm in (lz.name, "get_raw_reader"):
+        f = lz if nm == lz.name else facts.one(r"^read::ZipFile::<'a>::%s$" % nm)
         assign_blocks = {b_ for b_, si_, s_ in f.stmts() if s_["k"] == "assign" and [p_ for p_ in s_["place"]["p"] if p_["k"] == "field"][-1:] and
                          [p_ for p_ in s_["place"]["p"] if p_["k"] == "field"][-1]["n"] == "reader"}
         ps_ = _paths(f)
